@@ -22,9 +22,21 @@ func newBody() *Body {
 }
 
 func (b *Body) appendItem(c nodeContent) *node {
+    b.terminateLastLine()
     nn := b.children.Append(c)
     b.items.Add(nn)
     return nn
+}
+
+// terminateLastLine appends a newline if the body's last line has none, which
+// is the case for source that does not end in a newline. A new item must
+// start on a line of its own, or else it runs into the previous item or
+// disappears into a trailing single-line comment.
+func (b *Body) terminateLastLine() {
+    toks := b.children.BuildTokens(nil)
+    if len(toks) > 0 && !tokenIsNewline(toks[len(toks)-1]) {
+        b.AppendNewline()
+    }
 }
 
 func (b *Body) appendItemNode(nn *node) *node {
